@@ -10,6 +10,8 @@ import (
 	"crypto/sha256"
 	"crypto/x509"
 	"crypto/x509/pkix"
+	_ "embed"
+	"encoding/pem"
 	"math/big"
 	"sync"
 	"time"
@@ -18,30 +20,35 @@ import (
 	"google.golang.org/protobuf/proto"
 )
 
+//go:embed keys.pem
+var keysPEM []byte
+
 var (
 	poolOnce sync.Once
 	pool     []*rsa.PrivateKey
 )
 
-// Key returns the i-th key of a per-process pool of 2048-bit RSA keys (generated once from
-// crypto/rand; key bits never influence an oracle).
+// Key returns the i-th key of a fixed pool of eight 2048-bit RSA keys (test keys committed with the
+// harness; key bits never influence an oracle). The pool is the same in every process, so a crash-
+// isolating worker, a fuzz worker and the parent all agree on the root and signing keys.
 func Key(i int) *rsa.PrivateKey {
 	poolOnce.Do(func() {
-		const n = 8
-		pool = make([]*rsa.PrivateKey, n)
-		var wg sync.WaitGroup
-		for j := 0; j < n; j++ {
-			wg.Add(1)
-			go func(j int) {
-				defer wg.Done()
-				k, err := rsa.GenerateKey(rand.Reader, 2048)
-				if err != nil {
-					panic(err)
-				}
-				pool[j] = k
-			}(j)
+		rest := keysPEM
+		for {
+			var b *pem.Block
+			b, rest = pem.Decode(rest)
+			if b == nil {
+				break
+			}
+			k, err := x509.ParsePKCS1PrivateKey(b.Bytes)
+			if err != nil {
+				panic(err)
+			}
+			pool = append(pool, k)
 		}
-		wg.Wait()
+		if len(pool) == 0 {
+			panic("pki: no keys embedded")
+		}
 	})
 	return pool[i%len(pool)]
 }
